@@ -361,6 +361,14 @@ var scripts = []scriptT{
 	{client: true, stored: "idA", steps: []string{"run", "valid", "ready", "valid", "valid", "acc:idB", "acc:idA"}},
 	{stored: "idA", steps: []string{"run", "valid", "approve", "valid", "valid", "valid", "msg:" + string(accMethods("null")), "acc:idA"}},
 	{steps: []string{"run", "valid", "approve", "valid", "valid", "valid", "acc:", "data", "spine"}},
+	// C14/C04: a pending server's wait is ended by a hello with every class of waiting value
+	// (>= 30 s re-arms, 1..30 s stops, < 1 s aborts, none aborts), then the old timer's expiry is tried
+	{steps: []string{"run", "valid", "ready", "msg:" + string(helloMsg(nil, "pending", "29999", "")), "timeout", "approve", "timeout"}},
+	{steps: []string{"run", "valid", "ready", "msg:" + string(helloMsg(nil, "pending", "1000", "")), "timeout", "deferred"}},
+	{steps: []string{"run", "valid", "msg:" + string(helloMsg(nil, "pending", "15000", "")), "timeout", "approve"}},
+	{steps: []string{"run", "valid", "ready", "msg:" + string(helloMsg(nil, "ready", "15000", "")), "timeout", "approve", "timeout"}},
+	{steps: []string{"run", "valid", "ready", "msg:" + string(helloMsg(nil, "pending", "999", "")), "timeout", "deferred"}},
+	{steps: []string{"run", "valid", "ready", "msg:" + string(helloMsg(nil, "pending", "30000", "")), "timeout", "approve", "timeout"}},
 	// C01/C06: data before completion, pending without approval, cancel
 	{steps: []string{"run", "valid", "data", "data", "ready", "timeout", "data", "abort", "data", "deferred"}},
 	{steps: []string{"run", "valid", "data", "approve", "data", "valid", "valid", "valid", "data", "acc:idA", "data"}},
